@@ -191,6 +191,8 @@ type Req struct {
 	// Chunked: the body is sent with Transfer-Encoding: chunked in two chunks (unknown length for the receiver)
 	Chunked    bool
 	RemoteAddr string
+	// Ctx (optional) replaces the background context of the request (e.g. one the harness cancels in mid-flight)
+	Ctx context.Context //nolint:containedctx
 }
 
 // Resp is the observable answer of one entry point.
@@ -260,6 +262,10 @@ func (r *Req) httpRequest() (*http.Request, error) {
 
 	if r.Scheme == "https" {
 		req.TLS = &tls.ConnectionState{}
+	}
+
+	if r.Ctx != nil {
+		req = req.WithContext(r.Ctx)
 	}
 
 	return req, nil
